@@ -409,6 +409,70 @@ theorem gatherTxs_ok {env : Env} {body : Body} {cid : Bytes} :
       · obtain ⟨q, hq, rest⟩ := hall e hm
         exact ⟨q, List.mem_cons_of_mem _ hq, rest⟩
 
+/-- What a node's main chain — any mix of received and own blocks — establishes: its log is a nonce trace, and every
+executed transaction passed `Validate` for the hash of THIS chain's id in the version configured for some block
+number of the chain. -/
+theorem runNode_ok {env : Env} {body : Body} {hc : HdrCid → Bytes} {cfgVer : Nat → Nat} :
+    ∀ {steps : List NodeStep} {i : Nat} {best : HdrCid} {W W' : World} {log : List LogEntry},
+      runNode H Verify env body hc cfgVer i best W steps = some (W', log) →
+      Trace W.nonce log W'.nonce ∧
+      ∀ e ∈ log, ∃ j, i ≤ j ∧ j < i + steps.length ∧
+        validate H env.maxAER (hc ⟨cfgVer j, best.rest⟩) env.isPublic e.tx = none := by
+  intro steps
+  induction steps with
+  | nil =>
+    intro i best W W' log h
+    simp only [runNode, Option.some.injEq, Prod.mk.injEq] at h
+    obtain ⟨h1, h2⟩ := h
+    subst h1 h2
+    exact ⟨Trace.nil _, by simp⟩
+  | cons st r ih =>
+    intro i best W W' log h
+    cases st with
+    | recv hdr txs useMempool hit =>
+      simp only [runNode] at h
+      split at h
+      · cases h
+      · rename_i W1 log1 hb
+        split at h
+        · cases h
+        · rename_i W2 log2 hrest
+          simp only [Option.some.injEq, Prod.mk.injEq] at h
+          obtain ⟨h1, h2⟩ := h
+          subst h1 h2
+          obtain ⟨ha, hex⟩ := execHBlockWith_ok H Verify hb
+          obtain ⟨hrest', hver⟩ := acceptHeader_iff.mp ha
+          have hh : hdr = ⟨cfgVer i, best.rest⟩ := by
+            cases hdr with
+            | mk v rr => simp only at hrest' hver; rw [hrest', hver]
+          obtain ⟨htr1, _, hval1, _⟩ := execBlock_ok H Verify hex
+          obtain ⟨htr2, hval2⟩ := ih hrest
+          refine ⟨Trace.append htr1 htr2, ?_⟩
+          intro e he
+          rcases List.mem_append.mp he with h1 | h2
+          · exact ⟨i, Nat.le_refl _, by simp, by rw [← hh]; exact hval1 e h1⟩
+          · obtain ⟨j, hlo, hhi, hv⟩ := hval2 e h2
+            refine ⟨j, by omega, by simp only [List.length_cons]; omega, ?_⟩
+            rw [hrest'] at hv
+            exact hv
+    | own cands =>
+      simp only [runNode] at h
+      split at h
+      · cases h
+      · rename_i W2 log2 hrest
+        simp only [Option.some.injEq, Prod.mk.injEq] at h
+        obtain ⟨h1, h2⟩ := h
+        subst h1 h2
+        obtain ⟨htr2, hval2⟩ := ih hrest
+        obtain ⟨htr1, hval1⟩ := gatherTxs_ok H (env := env) (body := body) (cid := hc ⟨cfgVer i, best.rest⟩) (cands := cands) (W := W)
+        refine ⟨Trace.append htr1 htr2, ?_⟩
+        intro e he
+        rcases List.mem_append.mp he with h1 | h2
+        · obtain ⟨_, _, _, hv, _⟩ := hval1 e h1
+          exact ⟨i, Nat.le_refl _, by simp, hv⟩
+        · obtain ⟨j, hlo, hhi, hv⟩ := hval2 e h2
+          exact ⟨j, by omega, by simp only [List.length_cons]; omega, hv⟩
+
 end
 
 /-! ### Per-account nonce sequences of a trace -/
